@@ -1,0 +1,42 @@
+//go:build verif
+
+// Contracts for machine.go (see /verif/DESIGN.md section 7: C01, C02, C03, C04, C10, C06, C19).
+// Comment-only file, compiled only under the build tag `verif`.
+
+package bcl
+
+// ---------------------------------------------------------------------------
+// (*vm).run: one loop; each iteration executes one instruction.
+//
+// The loop-head hypothesis `wf` (clauses `loop 1 assume`) is the run-time
+// counterpart of what the compiler side proves at emission time (C10): pc is
+// an instruction boundary inside the code, the operands of the instruction are
+// present, the operand stack holds what the instruction needs, constant
+// operands exist and have the needed kind, local slots are live. It is ASSUMED
+// here (composition hypothesis, listed in the evidence), not proved: the link
+// "bytes in prog.code decode to the ghost instruction list" is argued in DESIGN.md.
+// What is not assumed and must be proved for every program: the operand stack
+// and the block stack never overflow.
+//
+//@ group C01,C02,C03,C04,C10,C06
+//@ func (*vm).run
+//@   requires prog_set: vm.prog != nil && vm.prog.linePos != nil
+//@   requires initial: 0 <= vm.tos && vm.tos <= 1024 && 0 <= vm.blockTos && vm.blockTos <= 16 && vm.pc >= 0
+//@   requires blocks_have_maps: forall i int :: 0 <= i && i < vm.blockTos ==> vm.blockStack[i].Fields != nil
+//
+//@   loop 1 invariant ranges: 0 <= vm.tos && vm.tos <= 1024 && 0 <= vm.blockTos && vm.blockTos <= 16 && vm.pc >= 0 && vm.prog == old(vm.prog) && vm.prog.linePos != nil && !overflow
+//@   loop 1 invariant blocks_have_maps: forall i int :: 0 <= i && i < vm.blockTos ==> vm.blockStack[i].Fields != nil
+//
+//@   loop 1 assume tables_aligned: len(vm.prog.positions) == len(vm.prog.code)
+//@   loop 1 assume at_instruction: 0 <= vm.pc && vm.pc < len(vm.prog.code) && knownOp(opcode(vm.prog.code[vm.pc])) && opcode(vm.prog.code[vm.pc]) != opLOOP
+//@   loop 1 assume operand_u: (fmtOf(opcode(vm.prog.code[vm.pc])) == FU() || fmtOf(opcode(vm.prog.code[vm.pc])) == FUU() || fmtOf(opcode(vm.prog.code[vm.pc])) == FUB()) ==> vm.pc + 1 < len(vm.prog.code) && vm.pc + 1 + uvneed(vm.prog.code[vm.pc+1]) <= len(vm.prog.code)
+//@   loop 1 assume operand_uu: fmtOf(opcode(vm.prog.code[vm.pc])) == FUU() ==> vm.pc + 1 + uvneed(vm.prog.code[vm.pc+1]) < len(vm.prog.code) && vm.pc + 1 + uvneed(vm.prog.code[vm.pc+1]) + uvneed(vm.prog.code[vm.pc+1+uvneed(vm.prog.code[vm.pc+1])]) <= len(vm.prog.code)
+//@   loop 1 assume operand_ub: fmtOf(opcode(vm.prog.code[vm.pc])) == FUB() ==> vm.pc + 1 + uvneed(vm.prog.code[vm.pc+1]) < len(vm.prog.code)
+//@   loop 1 assume operand_j: fmtOf(opcode(vm.prog.code[vm.pc])) == FJ() ==> vm.pc + 3 <= len(vm.prog.code)
+//@   loop 1 assume operands_on_stack: vm.tos >= needOf(opcode(vm.prog.code[vm.pc]))
+//@   loop 1 assume const_operand: (opcode(vm.prog.code[vm.pc]) == opCONST || opcode(vm.prog.code[vm.pc]) == opGETFIELD || opcode(vm.prog.code[vm.pc]) == opSETFIELD || opcode(vm.prog.code[vm.pc]) == opDEFBLOCK || opcode(vm.prog.code[vm.pc]) == opBIND) ==> operand1(vm) < uint64(len(vm.prog.constants))
+//@   loop 1 assume name_operand: (opcode(vm.prog.code[vm.pc]) == opGETFIELD || opcode(vm.prog.code[vm.pc]) == opSETFIELD || opcode(vm.prog.code[vm.pc]) == opDEFBLOCK || opcode(vm.prog.code[vm.pc]) == opBIND) ==> is_str(vm.prog.constants[int(operand1(vm))])
+//@   loop 1 assume name2_operand: opcode(vm.prog.code[vm.pc]) == opDEFBLOCK ==> operand2(vm) < uint64(len(vm.prog.constants)) && is_str(vm.prog.constants[int(operand2(vm))])
+//@   loop 1 assume slot_live: (opcode(vm.prog.code[vm.pc]) == opGETLOCAL ==> operand1(vm) < uint64(vm.tos)) && (opcode(vm.prog.code[vm.pc]) == opSETLOCAL ==> operand1(vm) + 1 < uint64(vm.tos))
+//@   loop 1 assume popn_within: opcode(vm.prog.code[vm.pc]) == opPOPN ==> operand1(vm) <= uint64(vm.tos)
+//@   loop 1 assume in_block: (opcode(vm.prog.code[vm.pc]) == opENDBLOCK || opcode(vm.prog.code[vm.pc]) == opSETFIELD || opcode(vm.prog.code[vm.pc]) == opGETFIELD) ==> vm.blockTos >= 1
